@@ -21,10 +21,11 @@ Target == [c |-> "Target", a |-> NoArgs]
 
 Fresh == [ObsInit(lm, ex) EXCEPT !.conn = TRUE, !.ph = "greeted", !.healthy = TRUE, !.call = Target]
 Get(k) == IF k \in DOMAIN om THEN om[k] ELSE Fresh
-(* VerbsOf("Target") is empty: the pseudo call allows every verb, so the check is skipped *)
+(* the calls of smtpconn are not visible at this level: the checks that relate a command to *)
+(* the call in progress are skipped (pseudo call "Other", UnexpectedCommand dropped)         *)
 Cmd(o, e) ==
-  LET o1 == ObsCmd([o EXCEPT !.call = [c |-> IF e.verb \in {"MAIL"} THEN "Other" ELSE "Other", a |-> NoArgs]],
-                   [verb |-> e.verb, par |-> ToSet(e.par), ak |-> e.ak, an |-> e.an, id |-> e.id, r |-> e.r, tls |-> e.tls])
+  LET o1 == ObsCmd([o EXCEPT !.call = [c |-> "Other", a |-> NoArgs]],
+                   [verb |-> e.verb, hn |-> "", par |-> ToSet(e.par), ak |-> e.ak, an |-> e.an, id |-> e.id, r |-> e.r, tls |-> e.tls])
   IN [o1 EXCEPT !.viol = @ \ {"UnexpectedCommand"}, !.slots = <<>>]
 
 Apply(o, e) ==
